@@ -25,10 +25,10 @@ EXPLANATION = ("Lean: repop_noop/error_iff/conserves/recipients/donors/moves_onl
 ASSUMPTIONS = ["random.sample(range(n), m) returns m distinct positions < n (checked on every recorded draw)"]
 
 
-def build_state(K, m, labels, spreads):
+def build_state(K, m, labels, spreads, eps=0):
     from fast_ticc.containers import arguments, model_state
     args = arguments.UserArguments(sparsity_weight=0.1, iteration_limit=5, label_switching_cost=1.0,
-                                   min_cluster_size=m, min_meaningful_covariance=0, num_clusters=K,
+                                   min_cluster_size=m, min_meaningful_covariance=eps, num_clusters=K,
                                    num_processors=1, window_size=1, biased_covariance=False)
     st = model_state.ModelState.empty_model(args, np.zeros((len(labels), 1)))
     st.point_labels = list(labels)
@@ -42,7 +42,7 @@ def chained_state(cm, c):
     optimise phase does (shallow cluster copies carrying new covariances, new state) and relabel it the way the
     labelling phase does (shallow state, deep cluster copies, labels assigned) — only public container operations."""
     first = c["chain"]
-    st0 = build_state(c["K"], c["m"], first["labels"], first["spreads"])
+    st0 = build_state(c["K"], c["m"], first["labels"], first["spreads"], c.get("eps", 0))
     pyrandom.seed(first["seed"])
     st1 = cm.repopulate_empty_clusters(st0)
     new_clusters = []
@@ -132,6 +132,10 @@ def run(ctx):
             # apart - equal in single precision, equal to any "tolerance"), and spreads far outside the single-precision
             # range whose squares are still ordinary doubles (covariances of data in very small / very large units)
             r_cls = pyrandom.Random(c["seed"] ^ 0x5EED)
+            if r_cls.random() < 0.2:
+                # an UNRELATED hyper-parameter at a non-default value: a positive covariance floor, above some of the spreads
+                # (the ranking is by the spread of the covariance as it is, whatever the floor)
+                c["eps"] = r_cls.choice([0.5, 2.5, 10.0, 100.0])
             u = r_cls.random()
             if u < 0.12:
                 base = float(r_cls.randint(1, 50))
@@ -158,7 +162,7 @@ def run(ctx):
                 continue
             ctx.count("chained_second_calls")
         else:
-            st = build_state(K, m, labels, spreads)
+            st = build_state(K, m, labels, spreads, c.get("eps", 0))
         before = tu.snapshot_state(st)
         before_ids = (id(st.clusters), [id(x) for x in st.clusters], id(st.point_labels))
         pyrandom.seed(c["seed"])
@@ -251,6 +255,8 @@ def run(ctx):
         lines.append(f"repop {K} {m} {show_list(spreads, lambda x: frac_str(Fraction(x)))} {show_list(order_for_model)} "
                      f"{show_list([d[1] for d in draws], lambda l: show_list(l), ';')} {show_list(labels)}")
         ctx.count(f"m={m}" if m <= 3 else "m>3")
+        if c.get("eps") and len(needy) >= 1 and len(donors_ranked) >= 2:
+            ctx.count("ranked_donors_under_a_positive_floor")
         if c.get("spread_class") and len(needy) >= 1 and len(donors_ranked) >= 2:
             ctx.count("ranked_donors_with_spreads:" + c["spread_class"])
         ctx.case((tuple(c["sizes"]) if "sizes" in c else tuple(labels), m, tuple(spreads)), nontrivial=bool(needy),
@@ -265,7 +271,7 @@ def run(ctx):
         for c in cases[:4000]:
             if c.get("chain") or any(float(x) < 0 for x in c["spreads"]):
                 continue
-            st_ = build_state(c["K"], c["m"], c["labels"], c["spreads"])
+            st_ = build_state(c["K"], c["m"], c["labels"], c["spreads"], c.get("eps", 0))
             try:
                 ranked = [int(x) for x in rank_fn(st_)]
             except Exception:
